@@ -120,7 +120,7 @@ pub fn case_lattice(api: &dyn GlobalApi, va: &dyn VariantApi, g: &dyn GenObj, st
 }
 
 fn run_data(ctx: &Ctx) -> CheckResult {
-    let cases = ctx.tier.pick(2000u32, 30_000);
+    let cases = ctx.tier.pick(6000u32, 60_000);
     for va in ctx.api.variants() {
         let v = va.v();
         ctx.pt_run(
@@ -149,7 +149,7 @@ fn run_state(ctx: &Ctx) -> CheckResult {
         ctx.skipped("state: built without hooks");
         return Ok(());
     }
-    let cases = ctx.tier.pick(1500u32, 20_000);
+    let cases = ctx.tier.pick(5000u32, 50_000);
     for va in ctx.api.variants() {
         let v = va.v();
         ctx.pt_run(
